@@ -77,14 +77,8 @@ func Check(data []byte) error {
 	dec.Strict = true
 	type scope map[string]bool
 	stack := []scope{{"xml": true, "xmlns": true}}
-	declared := func(p string) bool {
-		for i := len(stack) - 1; i >= 0; i-- {
-			if stack[i][p] {
-				return true
-			}
-		}
-		return false
-	}
+	depthOf := map[string]int{"xml": 1, "xmlns": 1} // prefix -> number of open elements that declare it (O(1) lookup at any nesting depth)
+	declared := func(p string) bool { return depthOf[p] > 0 }
 	for {
 		tok, err := dec.RawToken()
 		if err == io.EOF {
@@ -110,6 +104,9 @@ func Check(data []byte) error {
 					if a.Value == "" {
 						return fmt.Errorf("prefix %q bound to empty namespace", a.Name.Local)
 					}
+					if !sc[a.Name.Local] {
+						depthOf[a.Name.Local]++
+					}
 					sc[a.Name.Local] = true
 				}
 			}
@@ -127,6 +124,9 @@ func Check(data []byte) error {
 			}
 		case xml.EndElement:
 			if len(stack) > 1 {
+				for p := range stack[len(stack)-1] {
+					depthOf[p]--
+				}
 				stack = stack[:len(stack)-1]
 			}
 		}
